@@ -27,7 +27,18 @@ def part_rule(ctx):
     res = RuleResult("CPL-PART", "identity / transform index buffers partition the features: same index vector, complementary predicates of the same mask")
     init = base.methods.get("__init__")
     regs = {}
-    for n in ast.walk(init.node):
+    # the constructor and the helpers it calls on self
+    ctor_fns, todo = [], [init]
+    while todo:
+        m = todo.pop()
+        if any(m is x for x in ctor_fns):
+            continue
+        ctor_fns.append(m)
+        for n in ast.walk(m.node):
+            if isinstance(n, ast.Call) and isinstance(n.func, ast.Attribute) and isinstance(n.func.value, ast.Name) and n.func.value.id == "self" and base.lookup_method(n.func.attr) is not None and n.func.attr in base.methods:
+                todo.append(base.methods[n.func.attr])
+    ctor_nodes = [n for m in ctor_fns for n in ast.walk(m.node)]
+    for n in ctor_nodes:
         if isinstance(n, ast.Call) and isinstance(n.func, ast.Attribute) and n.func.attr == "register_buffer" and len(n.args) >= 2 and isinstance(n.args[0], ast.Constant):
             regs[n.args[0].value] = (n, n.args[1])
     for need in ("identity_features", "transform_features"):
@@ -51,7 +62,7 @@ def part_rule(ctx):
         else:
             res.ok("both index buffers select from `%s`" % src1)
         # the index vector must be arange(features)
-        locals_ = {n.targets[0].id: n.value for n in ast.walk(init.node) if isinstance(n, ast.Assign) and isinstance(n.targets[0], ast.Name)}
+        locals_ = {n.targets[0].id: n.value for n in ctor_nodes if isinstance(n, ast.Assign) and isinstance(n.targets[0], ast.Name)}
         srcv = locals_.get(src1)
         if srcv is not None and norm_text(srcv) in ("torch.arange(self.features)", "torch.arange(len(mask))", "torch.arange(mask.numel())"):
             res.ok("index vector is arange(features)")
@@ -488,6 +499,8 @@ def elementwise_rule(ctx, table=None, rule="CPL-ELEM", floor=4):
                     if k in dep:
                         return dep[k]
                     dep[k] = False
+                    if isinstance(n, ast.Attribute) and n.attr in ("dtype", "device", "is_cuda", "requires_grad"):
+                        return False  # metadata of the inputs, not their values (torch.finfo(inputs.dtype).eps is a number)
                     r = (isinstance(n, ast.Name) and n.id == x) or any(depends(c) for c in ast.iter_child_nodes(n))
                     dep[k] = r
                     return r
